@@ -114,6 +114,26 @@ theorem step_spec {P : Touch → Prop} (hall : ∀ b lo hi, PRange P b lo hi) (s
     | some w => exact opMap_spec sp vals hv c (hall _ _ _) (fun _ _ _ _ _ => hall _ _ _)
   | of_ ct vals => exact opOf_spec ct vals c (fun _ _ _ _ _ => hall _ _ _)
   | abSlice b st fi => exact opABSlice_spec b st fi c (fun _ => hall _ _ _)
+  | search v m se fr =>
+    show Ctx P (opSearch s v m se fr).2
+    cases hv : s.views[v]? with
+    | none => unfold opSearch; rw [hv]; exact c
+    | some w => exact opSearch_spec m se fr hv c (hall _ _ _)
+  | at_ v i =>
+    show Ctx P (opAt s v i).2
+    cases hv : s.views[v]? with
+    | none => unfold opAt; rw [hv]; exact c
+    | some w => exact opAt_spec i hv c (hall _ _ _)
+  | visit v bwd k det =>
+    show Ctx P (opVisit s v bwd k det).2
+    cases hv : s.views[v]? with
+    | none => unfold opVisit; rw [hv]; exact c
+    | some w => exact opVisit_spec bwd k det hv c (hall _ _ _)
+  | join v det pe =>
+    show Ctx P (opJoin s v det pe).2
+    cases hv : s.views[v]? with
+    | none => unfold opJoin; rw [hv]; exact c
+    | some w => exact opJoin_spec det pe hv c (hall _ _ _)
   | other v na ml det =>
     show Ctx P (opOther s v na ml det).2
     unfold opOther
@@ -260,6 +280,33 @@ theorem filter_within_view (s : State) (vi : Nat) (v : View) (keep : List Bool) 
     (hi : Inv s) (hv : s.views[vi]? = some v) :
     ∀ t ∈ (opFilter { s with log := [] } vi keep detAt det).2.log, InView v t :=
   (opFilter_spec keep detAt det (s := { s with log := [] }) hv (ctx0 hi) (pRange_inView v)).log
+
+/-- **within_view (indexOf / lastIndexOf / includes)** — for every search value, every fromIndex (any integer, ±∞ clamps,
+absent) and every adversary, the scan reads only bytes of the view. This is the statement seeded mutation C17-m1
+(`min(fromIndex, length)` in lastIndexOf) violates: `lastFrom_bound` no longer holds there. -/
+theorem search_within_view (s : State) (vi : Nat) (v : View) (mode : SearchMode) (se : Num) (from_ : Option IArg)
+    (hi : Inv s) (hv : s.views[vi]? = some v) :
+    ∀ t ∈ (opSearch { s with log := [] } vi mode se from_).2.log, InView v t :=
+  (opSearch_spec mode se from_ (s := { s with log := [] }) hv (ctx0 hi) (pRange_inView v)).log
+
+theorem at_within_view (s : State) (vi : Nat) (v : View) (idx : IArg) (hi : Inv s) (hv : s.views[vi]? = some v) :
+    ∀ t ∈ (opAt { s with log := [] } vi idx).2.log, InView v t :=
+  (opAt_spec idx (s := { s with log := [] }) hv (ctx0 hi) (pRange_inView v)).log
+
+/-- every / some / find / findIndex / findLast / findLastIndex / forEach / reduce / reduceRight / values() / entries() -/
+theorem visit_within_view (s : State) (vi : Nat) (v : View) (bwd : Bool) (detAt : Nat) (det : List Nat)
+    (hi : Inv s) (hv : s.views[vi]? = some v) :
+    ∀ t ∈ (opVisit { s with log := [] } vi bwd detAt det).2.log, InView v t :=
+  (opVisit_spec bwd detAt det (s := { s with log := [] }) hv (ctx0 hi) (pRange_inView v)).log
+
+/-- join / toString / toLocaleString -/
+theorem join_within_view (s : State) (vi : Nat) (v : View) (det : List Nat) (pe : Bool) (hi : Inv s) (hv : s.views[vi]? = some v) :
+    ∀ t ∈ (opJoin { s with log := [] } vi det pe).2.log, InView v t :=
+  (opJoin_spec det pe (s := { s with log := [] }) hv (ctx0 hi) (pRange_inView v)).log
+
+/-- the start index C17-m1 computes (`min(fromIndex, length)`) is out of the view for fromIndex ≥ length — witness on
+length 4, fromIndex 4: index 4 is not `< 4` -/
+theorem lastIndexOf_m1_witness : ¬ ((min (4 : Int) 4 + 1).toNat ≤ (4 : Int).toNat) := by decide
 
 /-- `ArrayBuffer.prototype.slice` touches only the receiver buffer -/
 theorem abSlice_within_buffer (s : State) (b : Nat) (st fi : Option IArg) (hi : Inv s) :
